@@ -339,13 +339,36 @@ def gen_exhaustive(rng):
 
 # ------------------------------------------------------------------------------------------ checking
 CHECKS = {"L1wrong": "l1_no_wrong", "L1wrong_skip": "l1_no_wrong_skip", "L1overlap": "l1_overlap",
-          "L1overlap_touch": "l1_overlap_touch", "L1missing": "l1_missing", "L1missing_skip": "l1_missing_skip",
+          "L1missing": "l1_missing", "L1missing_skip": "l1_missing_skip",
           "L1missing_pair": "l1_missing_pair", "L1crash": "l1_no_crash", "L2": "l2_model", "repaired": "repaired_ok"}
+# experiments against a patched scratch copy of the repo: WHVERIF_C06_RULES=1111 compares (L2) with the model under
+# the repaired rules (bit k = rule k repaired); the default is the model of the code as it is
+_bits = os.environ.get("WHVERIF_C06_RULES", "")
+if _bits:
+    CHECKS["L2"] = "l2_model_with (mkRules " + " ".join("true" if c == "1" else "false" for c in _bits) + ")"
+L1_KEYS = ("L1wrong", "L1wrong_skip", "L1overlap", "L1missing", "L1missing_skip", "L1missing_pair", "L1crash")
+# attribution of failing cases to the switchable rules of the model (second Coq round, failing cases only)
+ATTRIB = {"rule0": "not_needed 0", "rule1": "not_needed 1", "rule2": "not_needed 2", "rule3": "not_needed 3"}
 
-# one signature per defect class; everything else keeps a generic signature
-SIG_SKIP = "realign:window-extends-across-reference-skip"
-SIG_INS_START = "noref:insertion-called-ref-at-start-of-aligned-block"
-SIG_PAIR = "paired:opposite-strand-mate-dropped"
+# one signature per defect class (= per switchable rule of the model); everything else keeps a generic signature
+RULE_SIG = {
+    "rule0": ("realign:window-extends-across-reference-skip",
+              "cigar_prefix_length reports the requested instead of the consumed reference bases at a reference skip (N); "
+              "the padded alleles extend across the skip: wrong allele / allele not found / AssertionError"),
+    "rule1": ("noref:insertion-called-ref-at-start-of-aligned-block",
+              "without reference an insertion whose anchor lies immediately before the first base of an aligned block "
+              "(read start, after N) is reported as REF although the read does not span the insertion point"),
+    "rule2": ("paired:opposite-strand-mate-dropped",
+              "create_read_from_group drops every alignment on the other strand than the last primary one, i.e. one mate of "
+              "an FR pair; its fully covered variants get no allele"),
+    "rule3": ("noref:insertion-variant-queued-by-upstream-insertion-op",
+              "_detect_alleles uses ref_end = ref_pos + length at an I operation: an insertion variant less than `length` "
+              "bases downstream is queued against the wrong query bases and reported as REF (wrong allele / allele for a "
+              "variant beyond the read end)"),
+}
+GENERIC = {"L1wrong": "detect:wrong-allele", "L1wrong_skip": "detect:wrong-allele", "L1overlap": "detect:allele-for-non-overlapped-variant",
+           "L1missing": "realign:allele-not-found", "L1missing_skip": "realign:allele-not-found",
+           "L1missing_pair": "realign:allele-not-found", "L1crash": "detect:assertion-error"}
 
 
 def check_cases(ctx, wd, cases, label, perturb=None):
@@ -383,46 +406,44 @@ def check_cases(ctx, wd, cases, label, perturb=None):
 
 def describe(case, refmode, out):
     return (f"reference={'yes' if refmode else 'no'} ref={case['ref']} variants={case['listed']} "
-            f"alignments={[(a['nid'], a['start'], a['cigar'], a.get('flag', 0)) for a in case['alns']]} detected={out}")
+            f"alignments={[(a['nid'], a['start'], cig_str(a['cigar']), a['seq'], a.get('flag', 0)) for a in case['alns']]} "
+            f"truth={case['truth_clean'] if refmode else case['truth_all']} truth_skip={case['truth_skip'] if refmode else []} "
+            f"must={case['must_pair'] if refmode else []} detected={out}")
+
+
+def cig_str(c):
+    return "".join(f"{n}{o}" for o, n in c)
 
 
 def report(ctx, raw, failing):
-    """L1 failures (evaluated in Coq) -> violations; the signature is chosen by WHICH Coq predicate fails."""
+    """L1 failures (evaluated in Coq on the implementation's output) -> violations.  The signature is chosen by a second
+    Coq evaluation: which of the model's switchable (defective) rules must be repaired for this input to satisfy all
+    clauses.  A failure no rule explains keeps the generic signature of the failing clause."""
     F = {k: set(v) for k, v in failing.items()}
-    for i, (case, refmode, out) in enumerate(raw):
+    bad = sorted(set().union(*[F[k] for k in L1_KEYS]))
+    if not bad:
+        return
+    terms = [case_term(*raw[i]) for i in bad]
+    att, errors = eval_checks("C06a", HEADER, ATTRIB, terms, shard=100, timeout=1500)
+    if errors:
+        raise RuntimeError("coq evaluation failed: " + errors[0][1])
+    needed = {i: [r for r in ATTRIB if k in set(att[r])] for k, i in enumerate(bad)}
+    for i in bad:
+        case, refmode, out = raw[i]
         rp = {"case": case_json(case), "refmode": refmode}
+        clauses = [k for k in L1_KEYS if i in F[k]]
         d = describe(case, refmode, out)
-        if i in F["L1wrong"]:
-            ctx.violation("detect:wrong-allele" + ("" if refmode else "-noref"),
-                          f"an error-free read is assigned the allele its haplotype does not carry: truth="
-                          f"{case['truth_clean'] if refmode else case['truth_all']} {d}", rp)
-        if i in F["L1wrong_skip"] or i in F["L1missing_skip"]:
-            ctx.violation(SIG_SKIP,
-                          f"re-alignment window reaches a reference skip (N): cigar_prefix_length reports the requested instead "
-                          f"of the consumed reference bases, the padded alleles extend across the skip and the "
-                          f"{'WRONG allele is reported' if i in F['L1wrong_skip'] else 'carried allele is not found'}: "
-                          f"truth={case['truth_skip']} {d}", rp)
-        if i in F["L1overlap_touch"]:
-            ctx.violation("detect:allele-for-non-overlapped-variant",
-                          f"an allele is recorded for a variant no alignment of the read overlaps: {d}", rp)
-        elif i in F["L1overlap"]:
-            ctx.violation(SIG_INS_START if not refmode else "detect:allele-for-non-overlapped-variant",
-                          f"an allele (REF) is recorded for an insertion whose anchor base lies immediately before the first "
-                          f"base of an aligned block; the read does not span the insertion point: {d}", rp)
-        if i in F["L1missing"]:
-            ctx.violation("realign:allele-not-found",
-                          f"re-alignment does not report the allele of a fully covered, well separated variant: "
-                          f"must={case['must']} {d}", rp)
-        elif i in F["L1missing_pair"]:
-            ctx.violation(SIG_PAIR,
-                          f"create_read_from_group drops the mate whose strand differs from the last primary alignment; its "
-                          f"fully covered variants get no allele: must={case['must_pair']} {d}", rp)
-        if i in F["L1crash"]:
-            ctx.violation("detect:assertion-error",
-                          f"ReadSetReader.read raises AssertionError on a well-formed error-free input: {d}", rp)
-        if i in F["repaired"] and not (i in F["L2"]):
-            # not a verdict about the code: the repaired rules of the model must satisfy all clauses
-            ctx.l2_disagreement("repaired rules satisfy the specification", [{"case": case_json(case), "refmode": refmode}])
+        if i in F["L2"] or i in F["repaired"] or not needed[i]:
+            for c in clauses:
+                ctx.violation(GENERIC[c] + ("" if refmode else "-noref"), f"clause {c} fails: {d}", rp)
+        else:
+            for r in needed[i]:
+                sig, text = RULE_SIG[r]
+                ctx.violation(sig, f"{text}; failing clauses {clauses}: {d}", rp)
+    for i in sorted(F["repaired"] - F["L2"]):
+        case, refmode, out = raw[i]
+        # not a verdict about the code: the repaired rules of the model must satisfy all clauses
+        ctx.l2_disagreement("repaired rules satisfy the specification", [{"case": case_json(case), "refmode": refmode}])
 
 
 def run(ctx, perturb=None):
